@@ -63,6 +63,11 @@ const DATA_OPS: &[Op] = &[POP, DUP, DUPF, SWAP, SWAPI, SEL, SLTR, RES, LODS, STO
     EQ, EQRA, GT, LT, GTE, LTE, AND, OR, NOT, EQST, BAND, BOR, ADD, SUB, MUL, DIV, MOD, SHL, SHR, SHRI,
     ALOC, FREE, LOD, STO, LODR, STOR, LODP, LODPR];
 
+/// Operand pairs at which checked arithmetic changes its answer.
+const PAIRS: &[(i64, i64)] = &[(i64::MIN, -1), (i64::MIN, 1), (i64::MIN, i64::MIN), (i64::MAX, -1), (i64::MAX, 1), (i64::MAX, i64::MAX), (i64::MIN, i64::MAX),
+    (i64::MAX, i64::MIN), (-1, i64::MIN), (1, i64::MIN), (0, i64::MIN), (i64::MIN, 0), (-1, -1), (0, 0), (1 << 32, 1 << 31), (1 << 32, 1 << 32), (-(1 << 32), 1 << 31),
+    (3037000500, 3037000500), (3037000499, 3037000500), (i64::MIN / 2, 2), (i64::MIN / 2 - 1, 2), (i64::MAX / 2 + 1, 2), (-7, 2), (7, -2), (-7, -2), (i64::MIN + 1, -1)];
+
 pub fn gen_single(rng: &mut Rng) -> Case {
     let mut c = Case { family: "single", ..Default::default() };
     let op = if rng.chance(1, 12) { push(rng.word()) } else { rng.pick(DATA_OPS).clone() };
@@ -104,7 +109,10 @@ pub fn gen_single(rng: &mut Rng) -> Case {
                 if rng.chance(1, 6) { let k = extra.len() - 1; extra[k] = near(rng, extra[k]); }
             }
             Op::Alu(asm::Alu::Shl) | Op::Alu(asm::Alu::Shr) | Op::Alu(asm::Alu::ShrI) => { extra.push(rng.word()); extra.push(near(rng, 63)); }
-            Op::Alu(_) | Op::Pred(_) => { extra.push(rng.word()); extra.push(rng.word()); }
+            Op::Alu(_) | Op::Pred(_) => {
+                // a quarter of the binary cases use operand pairs at which checked arithmetic changes its answer
+                if rng.chance(1, 4) { let p = rng.pick(PAIRS); extra.push(p.0); extra.push(p.1); } else { extra.push(rng.word()); extra.push(rng.word()); }
+            }
             Op::Memory(asm::Memory::Alloc) => extra.push(near(rng, 10240 - mlen)),
             Op::Memory(asm::Memory::Free) => extra.push(near(rng, mlen)),
             Op::Memory(asm::Memory::Load) => extra.push(near(rng, mlen)),
@@ -183,7 +191,8 @@ pub fn gen_limits(rng: &mut Rng) -> Case {
 fn snippet(rng: &mut Rng, out: &mut Vec<Op>) {
     match rng.below(30) {
         0..=4 => out.push(push(rng.word())),
-        5..=9 => { out.push(push(rng.word())); out.push(push(rng.word())); out.push(rng.pick(&[ADD, SUB, MUL, DIV, MOD, EQ, GT, LT, GTE, LTE, AND, OR, BAND, BOR]).clone()); }
+        5..=9 => { if rng.chance(1, 6) { let p = rng.pick(PAIRS); out.push(push(p.0)); out.push(push(p.1)); } else { out.push(push(rng.word())); out.push(push(rng.word())); }
+                   out.push(rng.pick(&[ADD, SUB, MUL, DIV, MOD, EQ, GT, LT, GTE, LTE, AND, OR, BAND, BOR]).clone()); }
         10 => { out.push(push(rng.word())); out.push(push(if rng.chance(1, 8) { rng.range(0, 63) + (*rng.pick(&[1i64, 2, 3]) << 32) } else { rng.range(-1, 65) })); out.push(rng.pick(&[SHL, SHR, SHRI]).clone()); }
         11 => out.push(rng.pick(&[DUP, SWAP, POP, NOT]).clone()),
         12 => { out.push(push(rng.range(0, 4))); out.push(rng.pick(&[DUPF, SWAPI, DROP, LODS]).clone()); }
@@ -497,6 +506,8 @@ pub fn run(a: &Args) {
         let obs = run_case(c);
         out.bump(&format!("family_{}", c.family));
         out.bump(if obs.panicked { "impl_panic" } else if obs.is_err { "impl_err" } else { "impl_ok" });
+        // per operation: how often it was the (last) operation of a single-op case and succeeded / failed
+        if c.family == "single" || c.family == "limits" { if let Some(o) = c.ops.last() { out.bump(&format!("op:{}:{}", crate::util::op_path(o), if obs.is_err || obs.panicked { "err" } else { "ok" })); } }
         if let Some(e) = obs.res_json.get("err") { out.bump(&format!("err_class_{}", e[1])); }
         out.bump(&format!("steps_{}", match obs.steps { 0 => "0", 1 => "1", 2..=9 => "2-9", 10..=99 => "10-99", _ => "100+" }));
         let nt = obs.steps >= 2 || c.family == "single";
